@@ -343,6 +343,10 @@ sc_io_source_read (sc_io_source_t * source, void *data,
     if (bytes_out != NULL) {
       *bytes_out = 0;
     }
+    else if (bytes_avail > 0) {
+      /* an exact request cannot be met at the end of the input */
+      return SC_IO_ERROR_FATAL;
+    }
     return SC_IO_ERROR_NONE;
   }
 
